@@ -366,6 +366,17 @@ empty @is_you(int n) {
 }''', [['1'], ['200']]),
 ]
 
+MISC += [
+    # user names that look like the labels and registers of the generated assembly
+    ('label_like_names', '''int halt = 1; int tnt = 2; int r0 = 3; int ap = 4; int fp = 5; int defeat = 6; int loop_0 = 7; int stack_start = 8; int[] try_fp = [9, 10]; string all_is_win2 = "w"; const int[] func_f_0 = [11];
+int end_call_0(int no_overflow_0) { return no_overflow_0 + halt; }
+int func_is_you_0(int var_x_0) { int r1 = var_x_0 * 2; return r1 + r0; }
+empty !write_int(int begin_try_0) { !truth_is_defeat(begin_try_0 == defeat); }
+int string_0(string s) { return s.length; }
+empty @is_you(int x) { int var_halt_0 = halt + tnt + r0 + ap + fp + defeat + loop_0 + stack_start; write(var_halt_0); write(end_call_0(x)); write(func_is_you_0(x)); write(try_fp[1]); write(func_f_0[0]);
+  try { !write_int(x); write('n'); } stop { write('s'); } for (int loop_1 = 0; loop_1 < 2; loop_1 += 1) { write(loop_1); } write(string_0(all_is_win2)); write(string_0("string_0")); }''', [['6'], ['2']]),
+]
+
 # ------------------------------------------------------------------------------------------------ constants beyond 16 bits
 WIDE_PROG = '''int big = 100000; int neg = -100000; int edge = 65536; int nedge = -65536; int e1 = 65535; int ne1 = -65537;
 const int[] TAB = [70000, -70000, 8388607, -8388607, 16777, -1]; int[] MTAB = [-8000000, 8000000];
